@@ -1,5 +1,5 @@
 (* C04 — rule actions write exactly the computed values to exactly the addressed facts (C04_statement in proofs/MemoTheorems.v). *)
-From Grule Require Import Base Values Syntax EngineAbs Facts Eval Frame FrameTheorems Refinement MemoTheorems.
+From Grule Require Import Base Values Syntax EngineAbs Facts Eval Frame FrameTheorems Refinement MemoTheorems StoreExact.
 Theorem C04 : forall rules meth panics_inside mutating
   (meth_pure : forall fs f args ret fs', mutating f = false -> meth fs f args = Ok (ret, fs') -> fs' = fs),
   rules_ok rules mutating -> dependency_hypothesis rules meth mutating ->
@@ -23,3 +23,17 @@ Theorem C04_flat : forall meth panics_inside mutating
   C04_statement rules meth panics_inside mutating.
 Proof. exact FrameTheorems.C04_flat. Qed.
 Print Assumptions C04_flat.
+
+(* "exactly the computed values": an integer stored into an integer location of either family and any width arrives bit
+   for bit whenever it is in the range of the destination - whatever its magnitude (no detour through float64) *)
+Theorem C04_integer_store_exact_signed : forall k old src z,
+  int_of_num src = Some z -> fits_int k z ->
+  store_scalar (FV (VInt k old)) src = Ok (FV (VInt k z)).
+Proof. exact store_int_exact. Qed.
+Print Assumptions C04_integer_store_exact_signed.
+
+Theorem C04_integer_store_exact_unsigned : forall k old src z,
+  int_of_num src = Some z -> fits_uint k z ->
+  store_scalar (FV (VUint k old)) src = Ok (FV (VUint k z)).
+Proof. exact store_uint_exact. Qed.
+Print Assumptions C04_integer_store_exact_unsigned.
